@@ -109,12 +109,7 @@ theorem position_agrees (rs : List Loaded) (n : Nat) (hn : n < rs.length) :
 theorem out_of_range_refused (rs : List Loaded) (n : Nat) (hn : rs.length ≤ n) : Reflog.get rs n = none :=
   C11.get_out_of_range rs n hn
 
-/-- the mode flags of `reset` as evaluated in `cmd/reset.go`: exactly one mode must remain once
-    `--soft`/`--hard` have cleared the default `--mixed` -/
-def modeOf (soft mixed hard : Bool) : Option (Bool × Bool × Bool) :=
-  let mixed' := if soft || hard then false else mixed
-  if (soft && !mixed' && !hard) || (!soft && mixed' && !hard) || (!soft && !mixed' && hard) then some (soft, mixed', hard) else none
-
+open Cmds in
 /-- the whole decision table (8 flag combinations), by the kernel -/
 theorem mode_table :
     modeOf false true false = some (false, true, false) ∧   -- default: mixed
